@@ -2405,25 +2405,24 @@ Section FudFromDel.
   Variables Rc Rn : list H.
 
   (** [forgetUnneededDel] from a deleted position whose parent position holds the node [y0] *)
-  Lemma fud_from_del m r o y0 : Inv2 HO s Rc Rn m -> In y0 (layout HO s) ->
-    r < ms_total m -> o < 2 ^ (ms_total m - r) ->
-    gp (ms_total m) (nrow y0) (noff y0) = gpos (ms_total m) (r + 1) (o / 2) ->
-    isRootPositionTotalRows (gpos (ms_total m) r o) (ms_n m) (ms_total m) = false ->
-    Inv2 HO s Rc Rn (set_nodes m (forgetUnneededDel HO (ms_n m) (ms_total m) (gpos (ms_total m) r o)
-                                    (ms_nodes m))).
+  Lemma fud_from_del nd ca n T full r o y0 : Inv2 HO s Rc Rn (mkM nd ca n T full) -> In y0 (layout HO s) ->
+    r < T -> o < 2 ^ (T - r) ->
+    gp T (nrow y0) (noff y0) = gpos T (r + 1) (o / 2) ->
+    isRootPositionTotalRows (gpos T r o) n T = false ->
+    Inv2 HO s Rc Rn (mkM (forgetUnneededDel HO n T (gpos T r o) nd) ca n T full).
   Proof.
-    intros I Hy0 Hr Ho Eg Hnr. pose proof (i_T63 I) as HT.
+    intros I Hy0 Hr Ho Eg Hnr. pose proof (i_T63 I) as HT. cbn [ms_total] in HT.
     unfold forgetUnneededDel. rewrite Hnr.
     rewrite DetectRow_gpos by (try assumption; lia).
     change 300%nat with (S 299). generalize 299%nat. intros f.
     cbn [fud_loop].
-    destruct (N.ltb_spec (ms_total m) r) as [Lt|_]; [lia|].
+    destruct (N.ltb_spec T r) as [Lt|_]; [lia|].
     rewrite Parent_gpos by assumption. rewrite <- Eg.
-    assert (Eroot : isRootPositionTotalRows (gp (ms_total m) (nrow y0) (noff y0)) (ms_n m) (ms_total m) = nroot y0).
-    { pose proof (i_n I) as En. unfold num_leaves in En. rewrite En.
-      exact (ng_isroot H HO s (ms_total m) (pi_n63 H HO s Rc Rn m I) (pi_Tlo H HO s Rc Rn m I) HT y0 Hy0). }
-    rewrite Eroot. destruct (nroot y0) eqn:Ry; [destruct m; exact I|].
-    pose proof (prunePosition_Inv2 H HO s Rc Rn m y0 I Hy0 Ry) as I5.
+    assert (Eroot : isRootPositionTotalRows (gp T (nrow y0) (noff y0)) n T = nroot y0).
+    { pose proof (i_n I) as En. cbn [ms_n] in En. unfold num_leaves in En. rewrite En.
+      exact (ng_isroot H HO s T (pi_n63 H HO s Rc Rn _ I) (pi_Tlo H HO s Rc Rn _ I) HT y0 Hy0). }
+    rewrite Eroot. destruct (nroot y0) eqn:Ry; [exact I|].
+    pose proof (prunePosition_Inv2 H HO s Rc Rn _ y0 I Hy0 Ry) as I5.
     exact (fud_node_Inv2 H HO s Rc Rn f (add8 r 1) _ y0 I5 Hy0 Ry).
   Qed.
 End FudFromDel.
@@ -3242,7 +3241,625 @@ Section StepInner.
     destruct (coord_eq _ _ _ upn_coord_sb) as [Er0 Eo0].
     assert (Eg0 : gp T (nrow (upn H rd fl sb)) (noff (upn H rd fl sb)) = gpos T (rdN + 1) (od / 2)).
     { rewrite Er0, Eo0. unfold gp. f_equal. lia. }
-    exact (fud_from_del H HO s' Rc Rn' (mkM N4 ca3 n T full) rdN od (upn H rd fl sb)
+    exact (fud_from_del H HO s' Rc Rn' N4 ca3 n T full rdN od (upn H rd fl sb)
              I4 Hy0 si_rd si_od Eg0 si_notroot).
   Qed.
 End StepInner.
+(** * 13. [removeSingle] deletes the subtree below a node *)
+Section RemoveSingleInv.
+  Variable H : Type.
+  Variable HO : ops H.
+  Hypothesis HOK : ops_ok HO.
+
+  (** the node is no root: its sibling moves up *)
+  Theorem removeSingle_inner s Rc Rn m L x z : Inv2 HO s Rc Rn m ->
+    In x (layout HO s) -> nroot x = false ->
+    (forall y, In y (layout HO s) -> nleaf y = true ->
+               (memH HO (nhash y) L = true <-> under (coord x) (coord y))) ->
+    (forall y, In y (layout HO s) -> nleaf y = true -> under (coord x) (coord y) -> ~ In (nhash y) Rc) ->
+    In z (layout HO s) -> nleaf z = true -> under (coord x) (coord z) -> In (nhash z) Rn ->
+    exists nd' ca',
+      removeSingle HO (ms_n m) (ms_total m) (ms_full m) (gp (ms_total m) (nrow x) (noff x))
+        (ms_nodes m, ms_cached m) = (nd', ca') /\
+      Inv2 HO (kill HO L s) Rc (filter (fun h => negb (memH HO h L)) Rn)
+        (mkM nd' ca' (ms_n m) (ms_total m) (ms_full m)).
+  Proof.
+    intros I Hx Hxr Hdel HLc Hz Lz Uz Rz.
+    destruct (ng_family H HO s x Hx Hxr) as (p & sb & Hp & Hsb & Hsbr & Hpl & Esb & Ep & Etp & Ets & _).
+    pose proof (si_rd H HO s Rc Rn m I L x Hx Hxr Hdel HLc z Lz) as Hrd.
+    pose proof (si_od H HO s Rc Rn m I x Hx) as Hod.
+    pose proof (si_rd_tree H HO s Rc Rn m I x Hx Hxr) as Hrt.
+    pose proof (si_sib_stored H HO s Rc Rn m I L x Hx Hxr Hdel HLc z Hz Lz Uz Rz 0 ltac:(lia)) as Hs.
+    rewrite Nat.add_0_r in Hs. cbn [N.of_nat] in Hs. rewrite N.pow_0_r, N.div_1_r in Hs.
+    destruct (coord_eq _ _ _ Esb) as [Esr Eso].
+    assert (Eg : gp (ms_total m) (nrow x) (N.lxor (noff x) 1) = gp (ms_total m) (nrow sb) (noff sb))
+      by (rewrite Esr, Eso; reflexivity).
+    rewrite Eg in Hs.
+    destruct (nodes_get (ms_nodes m) (gp (ms_total m) (nrow sb) (noff sb))) as [[h b]|] eqn:Evs; [clear Hs|congruence].
+    pose proof (si_stored_node H HO s Rc Rn m I sb (h, b) Hsb Evs) as Eh. cbn [fst] in Eh. subst h.
+    assert (Evs' : nodes_get (ms_nodes m) (gpos (ms_total m) (N.of_nat (nrow x)) (N.lxor (noff x) 1))
+                   = Some (nhash sb, b)).
+    { rewrite <- Evs. unfold gp. rewrite Esr, Eso. reflexivity. }
+    destruct (removeSingle_moves H HO HOK (ms_n m) (ms_total m) (N.of_nat (nrow x)) (noff x) (ms_full m)
+                (i_T63 I) Hrd Hod (ms_nodes m) (ms_cached m) (nhash sb, b) (i_keys I) (i_ckeys I)
+                (si_notroot H HO s Rc Rn m I x Hx Hxr) Evs' (si_uniq H HO s Rc Rn m I))
+      as (nd3 & ca3 & M & Eq).
+    eexists. exists ca3. split; [exact Eq|]. cbn [fst].
+    exact (st_fud H HO s Rc Rn m I L x Hx Hxr Hdel HLc z Hz Lz Uz Rz p sb Hp Hsb Hsbr Hpl Esb Ep Etp Ets
+             b nd3 ca3 Evs M).
+  Qed.
+End RemoveSingleInv.
+
+(** * 14. [removeSingle] on a root: the tree becomes an empty root *)
+Section TreeRoot.
+  Variable H : Type.
+  Variable HO : ops H.
+  Variable s : slots H.
+
+  (** every node of a tree lies below its root *)
+  Lemma ng_tree_root x y : In x (layout HO s) -> In y (layout HO s) -> nroot x = true ->
+    ntree y = ntree x -> under (coord x) (coord y).
+  Proof.
+    intros Hx Hy Rx Et.
+    destruct (root_node_conv H HO s x Hx Rx) as (k & lo & t & He & Er & Eo & _ & Etx).
+    destruct (layout_entry H HO s y Hy) as (k2 & lo2 & t2 & He2 & Hye).
+    assert (Ek : k2 = k).
+    { cbn [place_entry] in Hye. destruct t2 as [c|].
+      - rewrite <- (place_tree_ntree H _ _ _ _ _ _ Hye). congruence.
+      - destruct Hye as [<-|[]]. cbn [ntree] in Et. congruence. }
+    subst k2. destruct (forest_entry_unique H HO s _ _ _ _ _ He He2) as [<- <-].
+    pose proof (forest_entry H HO s _ _ _ He) as (_ & _ & E2 & _).
+    rewrite (place_entry_eq H HO k lo t _ E2) in Hye.
+    assert (Eq : noff x = 2 * (N.of_nat (length s) / p2 (S k))).
+    { rewrite Eo. fold (p2 k). rewrite E2 at 1. apply N.div_mul. pose proof (p2_pos k). lia. }
+    unfold coord at 1. rewrite Er, Eq. destruct t as [c|].
+    - apply inrange_under, (place_tree_range H _ _ _ _ _ _ Hye).
+    - destruct Hye as [<-|[]]. unfold coord. cbn [nrow noff]. apply under_refl.
+  Qed.
+End TreeRoot.
+
+Section StepRoot.
+  Variable H : Type.
+  Variable HO : ops H.
+  Hypothesis HOK : ops_ok HO.
+  Variable s : slots H.
+  Variables Rc Rn : list H.
+  Variable m : mstate H.
+  Hypothesis I : Inv2 HO s Rc Rn m.
+  Variable L : list H.
+  Variable x : node H.
+  Hypothesis Hx : In x (layout HO s).
+  Hypothesis Hxr : nroot x = true.
+  Hypothesis Hdel : forall y, In y (layout HO s) -> nleaf y = true ->
+    (memH HO (nhash y) L = true <-> under (coord x) (coord y)).
+  Hypothesis HLc : forall y, In y (layout HO s) -> nleaf y = true -> under (coord x) (coord y) ->
+    ~ In (nhash y) Rc.
+
+  Notation lay := (layout HO s).
+  Notation s' := (kill HO L s).
+  Notation lay' := (layout HO (kill HO L s)).
+  Notation T := (ms_total m).
+  Notation n := (ms_n m).
+  Notation N0 := (ms_nodes m).
+  Notation ca := (ms_cached m).
+  Notation gpx := (fun y : node H => gp (ms_total m) (nrow y) (noff y)).
+  Notation rd := (nrow x).
+  Notation od := (noff x).
+  Notation rdN := (N.of_nat (nrow x)).
+  Notation Rn' := (filter (fun h => negb (memH HO h L)) Rn).
+  Notation del := (gp (ms_total m) (nrow x) (noff x)).
+  Notation nd0 := (forgetBelow (ms_total m) (gp (ms_total m) (nrow x) (noff x)) (ms_nodes m)).
+  Notation nd' := (nodes_put (gp (ms_total m) (nrow x) (noff x)) (op_empty HO, ms_full m)
+                     (forgetBelow (ms_total m) (gp (ms_total m) (nrow x) (noff x)) (ms_nodes m))).
+  Notation er := (mkNode (nrow x) (noff x) (op_empty HO) false true (nrow x)).
+
+  Lemma sr_n63 : N.of_nat (length s) <= 2 ^ 63. Proof. exact (pi_n63 H HO s Rc Rn m I). Qed.
+  Lemma sr_Tlo : TreeRows (N.of_nat (length s)) <= T. Proof. exact (pi_Tlo H HO s Rc Rn m I). Qed.
+  Lemma sr_valid y : In y lay -> N.of_nat (nrow y) <= T /\ noff y < 2 ^ (T - N.of_nat (nrow y)).
+  Proof. exact (ng_valid H HO s T sr_n63 sr_Tlo (i_T63 I) y). Qed.
+  Lemma sr_inj y y' : In y lay -> In y' lay -> gpx y = gpx y' -> y = y'.
+  Proof. exact (ng_inj H HO s T sr_n63 sr_Tlo (i_T63 I) y y'). Qed.
+
+  Lemma sr_er : In er lay'. Proof. exact (proj1 (kill_root H HO s L x Hx Hdel Hxr)). Qed.
+  Lemma sr_keep y : In y lay -> ~ under (coord x) (coord y) -> In y lay'.
+  Proof. exact (proj2 (kill_root H HO s L x Hx Hdel Hxr) y). Qed.
+
+  (** the node map after the deletion *)
+  Lemma sr_get y : In y lay -> ~ under (coord x) (coord y) ->
+    nodes_get nd' (gp T (nrow y) (noff y)) = nodes_get N0 (gp T (nrow y) (noff y)).
+  Proof.
+    intros Hy Hn. destruct (sr_valid x Hx) as [A B].
+    destruct (forgetBelow_spec H T (i_T63 I) rdN od N0 A B) as (_ & B2 & _).
+    rewrite rg_put. destruct (N.eqb_spec (gpx y) del) as [E|_].
+    - exfalso. apply Hn. rewrite (sr_inj y x Hy Hx E). apply under_refl.
+    - destruct (B2 (gpx y)) as [E|[_ (j & b & Hj1 & Hj & Hb & E)]]; [exact E|exfalso].
+      apply Hn. destruct (sr_valid y Hy) as [C D]. cbv beta in E. unfold gp in E.
+      assert (Hjv : rdN - j <= T) by lia.
+      assert (Hbv : od * 2 ^ j + b < 2 ^ (T - (rdN - j))).
+      { replace (T - (rdN - j)) with (T - rdN + j) by lia. rewrite N.pow_add_r.
+        assert ((od + 1) * 2 ^ j <= 2 ^ (T - rdN) * 2 ^ j) by (apply N.mul_le_mono_r; lia). lia. }
+      destruct (gpos_inj T _ _ _ _ C D Hjv Hbv E) as [Er Eo].
+      apply (under_compose (coord x) (coord y) b); unfold coord; cbn [fst snd]; [lia| |].
+      + rewrite Eo. f_equal. f_equal. f_equal. lia.
+      + replace (N.of_nat (rd - nrow y)) with j by lia. exact Hb.
+  Qed.
+
+  Lemma sr_src p' v : nodes_get nd' p' = Some v ->
+    (p' = del /\ v = (op_empty HO, ms_full m)) \/
+    (exists y, In y lay /\ ~ under (coord x) (coord y) /\ p' = gp T (nrow y) (noff y) /\ nodes_get N0 p' = Some v).
+  Proof.
+    intros E. rewrite rg_put in E. destruct (N.eqb_spec p' del) as [->|Hne].
+    - left. split; [reflexivity|]. injection E as <-. reflexivity.
+    - right. destruct (sr_valid x Hx) as [A B].
+      destruct (forgetBelow_spec H T (i_T63 I) rdN od N0 A B) as (B1 & B2 & _).
+      change (gp T rd od) with (gpos T rdN od) in E.
+      destruct (B2 p') as [E'|[E' _]]; [|congruence]. rewrite E' in E.
+      destruct v as [h b]. destruct (i_true I _ _ _ E) as (y & Hy & -> & _).
+      exists y. split; [exact Hy|]. split; [|auto]. intros U.
+      destruct (Nat.eq_dec (nrow y) rd) as [Er|Er].
+      + apply Hne. destruct U as [_ Eo]. unfold coord in Eo. cbn [fst snd] in Eo.
+        rewrite Er, Nat.sub_diag, p2_0, N.div_1_r in Eo. cbv beta. rewrite Er, Eo. reflexivity.
+      + destruct (under_decomp _ _ U) as [Eo Hb]. destruct U as [Hr _]. unfold coord in *. cbn [fst snd] in *.
+        assert (Hbl : below T rdN od (gpx y)).
+        { exists (N.of_nat (rd - nrow y)), (noff y mod 2 ^ N.of_nat (rd - nrow y)).
+          split; [lia|]. split; [lia|]. split; [exact Hb|]. cbv beta. unfold gp. f_equal; [lia|exact Eo]. }
+        rewrite (B1 _ Hbl) in E'. rewrite <- E' in E. discriminate.
+  Qed.
+
+  Lemma sr_root_only y : In y lay -> nroot y = true -> under (coord x) (coord y) -> y = x.
+  Proof.
+    intros Hy Ry U. pose proof (ng_same_tree H HO s x y Hx Hy U) as Et.
+    apply (root_iff_row H HO s y Hy) in Ry. pose proof Hxr as Rx. apply (root_iff_row H HO s x Hx) in Rx.
+    destruct U as [Hr Eo]. unfold coord in *. cbn [fst snd] in *.
+    assert (Er : nrow y = rd) by lia. rewrite Er, Nat.sub_diag, p2_0, N.div_1_r in Eo.
+    apply (ng_coord_eq H HO s y x Hy Hx). unfold coord. congruence.
+  Qed.
+
+  Lemma sr_leaf_keep w : In w lay -> nleaf w = true -> memH HO (nhash w) L = false ->
+    ~ under (coord x) (coord w) /\ In w lay'.
+  Proof.
+    intros Hw Lw Hm. assert (Hn : ~ under (coord x) (coord w)).
+    { intros U. apply (Hdel w Hw Lw) in U. congruence. }
+    split; [exact Hn|exact (sr_keep w Hw Hn)].
+  Qed.
+
+  Lemma sr_new_leaf y' : In y' lay' -> nleaf y' = true ->
+    In y' lay /\ memH HO (nhash y') L = false /\ ~ under (coord x) (coord y').
+  Proof.
+    intros Hy' Ly'. pose proof (layout_leaf_live H HO s' y' Hy' Ly') as Hl.
+    apply kill_live in Hl as [Hl Hm]. destruct (live_leaf_in_layout H HO s _ Hl) as (w & Hw & Lw & Ew).
+    rewrite <- Ew in Hm. destruct (sr_leaf_keep w Hw Lw Hm) as [Hn Hw'].
+    assert (y' = w).
+    { apply (live_leaf_unique H HO s' y' w (kill_nodup H HO L s (i_live_nd I)) Hy' Hw' Ly' Lw). congruence. }
+    subst y'. auto.
+  Qed.
+
+  Lemma sr_Rc_not_L h : In h Rc -> memH HO h L = false.
+  Proof.
+    intros Hh. destruct (live_leaf_in_layout H HO s h (i_Rn I h (i_sub I h Hh))) as (w & Hw & Lw & Ew).
+    destruct (memH HO h L) eqn:Em; [exfalso|reflexivity]. rewrite <- Ew in Em.
+    apply (Hdel w Hw Lw) in Em. apply (HLc w Hw Lw Em). rewrite Ew. exact Hh.
+  Qed.
+
+  Theorem sr_Inv : Inv2 HO s' Rc Rn' (mkM nd' ca n T (ms_full m)).
+  Proof.
+    constructor; cbn [ms_n ms_total ms_nodes ms_cached].
+    - unfold num_leaves. rewrite (length_kill H HO L s). exact (i_n I).
+    - exact (i_n63 I).
+    - exact (i_rows I).
+    - exact (i_T63 I).
+    - exact (kill_nodup H HO L s (i_live_nd I)).
+    - intros h a b Hin. apply kill_live in Hin as [Hin _]. exact (i_live_nn I h a b Hin).
+    - intros h Hin. apply kill_live in Hin as [Hin _]. exact (i_live_nz I h Hin).
+    - apply keys_put. destruct (sr_valid x Hx) as [A B].
+      destruct (forgetBelow_spec H T (i_T63 I) rdN od N0 A B) as (_ & _ & B3). apply B3, (i_keys I).
+    - exact (i_ckeys I).
+    - intros p' h b E. destruct (sr_src p' (h, b) E) as [[-> Ev]|(y & Hy & Hn & -> & E0)].
+      + injection Ev as -> _. exists er. split; [exact sr_er|]. split; reflexivity.
+      + exists y. split; [exact (sr_keep y Hy Hn)|]. split; [reflexivity|].
+        pose proof (si_stored_node H HO s Rc Rn m I y (h, b) Hy E0) as Eh. symmetry. exact Eh.
+    - intros h Hh. apply filter_In in Hh as [Hh Hm]. apply kill_live. split; [exact (i_Rn I h Hh)|].
+      destruct (memH HO h L); [discriminate|reflexivity].
+    - intros h Hh. apply filter_In. split; [exact (i_sub I h Hh)|]. rewrite (sr_Rc_not_L h Hh). reflexivity.
+    - intros h p'. rewrite (i_cached I). split.
+      + intros (Hh & w & Hw & Lw & Ew & ->). split; [exact Hh|]. exists w.
+        pose proof (sr_Rc_not_L h Hh) as Hm. rewrite <- Ew in Hm.
+        destruct (sr_leaf_keep w Hw Lw Hm) as [_ Hw']. auto.
+      + intros (Hh & y' & Hy' & Ly' & Ey' & ->). split; [exact Hh|]. exists y'.
+        destruct (sr_new_leaf y' Hy' Ly') as (Hy & _ & _). auto.
+    - intros x' Hx' Rx'. destruct (kill_roots H HO L s x' Hx' Rx') as (y & Hy & Ry & Ec).
+      destruct (coord_eq _ _ _ (eq_sym Ec)) as [Er Eo]. rewrite Er, Eo.
+      destruct (under_dec (coord x) (coord y)) as [U|Hn].
+      + rewrite (sr_root_only y Hy Ry U). rewrite rg_put, N.eqb_refl. discriminate.
+      + rewrite (sr_get y Hy Hn). exact (i_roots I y Hy Ry).
+    - intros x' Hx' Lx' Hh. apply filter_In in Hh as [Hh _].
+      destruct (sr_new_leaf x' Hx' Lx') as (Hy & _ & Hn).
+      rewrite (sr_get x' Hy Hn).
+      exact (i_leaf I x' Hy Lx' Hh).
+    - intros x' Hx' Lx' Hh k Hk. apply filter_In in Hh as [Hh _].
+      destruct (sr_new_leaf x' Hx' Lx') as (Hw & _ & Hn).
+      pose proof (i_sibs I x' Hw Lx' Hh k Hk) as Hs.
+      destruct (ng_ancestor H HO s T sr_n63 sr_Tlo (i_T63 I) x' Hw k ltac:(lia)) as (a & Ha & Ea & Eta & _).
+      destruct (coord_eq _ _ _ Ea) as [Ear Eao].
+      assert (Hnr : nroot a = false) by (apply (nonroot_iff_row H HO s sr_n63 a Ha); lia).
+      destruct (ng_family H HO s a Ha Hnr) as (pa & sk & _ & Hsk & _ & _ & Esk & _ & _ & Ets & _).
+      destruct (coord_eq _ _ _ Esk) as [Esr Eso].
+      assert (Eg : gp T (nrow x' + k) (N.lxor (noff x' / 2 ^ N.of_nat k) 1) = gp T (nrow sk) (noff sk)).
+      { rewrite Esr, Eso, Ear, Eao. reflexivity. }
+      rewrite Eg in Hs |- *. rewrite sr_get; [exact Hs|exact Hsk|].
+      intros U. apply Hn. apply (ng_tree_root H HO s x x' Hx Hw Hxr).
+      rewrite <- (ng_same_tree H HO s x sk Hx Hsk U). congruence.
+  Qed.
+End StepRoot.
+(** * 15. [remove]: un-caching, and one [removeSingle] for the subtree below a node *)
+Section RemoveNode.
+  Variable H : Type.
+  Variable HO : ops H.
+  Hypothesis HOK : ops_ok HO.
+
+  Notation keep L := (fun h => negb (memH HO h L)).
+
+  (** [uncacheLeaves] *)
+  Lemma uncache_Inv2 L : forall s Rc Rn nd ca n T full, Inv2 HO s Rc Rn (mkM nd ca n T full) ->
+    Inv2 HO s (filter (keep L) Rc) Rn
+      (mkM nd (fold_left (fun c h => cached_del HO h c) L ca) n T full).
+  Proof.
+    induction L as [|d L IH]; intros s Rc Rn nd ca n T full I.
+    - cbn [fold_left]. replace (filter (keep []) Rc) with Rc; [exact I|].
+      clear. induction Rc as [|h Rc IHR]; [reflexivity|]. cbn [filter memH negb]. f_equal. exact IHR.
+    - cbn [fold_left].
+      assert (I1 : Inv2 HO s (filter (fun h => negb (op_eqb HO h d)) Rc) Rn
+                     (mkM nd (cached_del HO d ca) n T full)).
+      { constructor; cbn [ms_n ms_total ms_nodes ms_cached];
+          try exact (i_n I); try exact (i_n63 I); try exact (i_rows I); try exact (i_T63 I);
+          try exact (i_live_nd I); try exact (i_live_nn I); try exact (i_live_nz I);
+          try exact (i_keys I); try exact (i_true I); try exact (i_Rn I); try exact (i_roots I);
+          try exact (i_leaf I); try exact (i_sibs I).
+        - apply ckeys_del, (i_ckeys I).
+        - intros h Hh. apply filter_In in Hh as [Hh _]. exact (i_sub I h Hh).
+        - intros h p. rewrite (cg_del H HO HOK). rewrite filter_In.
+          destruct (op_eqb HO h d) eqn:E; cbn [negb].
+          + split; [discriminate|]. intros [[_ C] _]. discriminate.
+          + pose proof (i_cached I h p) as Hc. cbn [ms_cached ms_total] in Hc. rewrite Hc. tauto. }
+      specialize (IH s _ Rn nd _ n T full I1).
+      replace (filter (keep (d :: L)) Rc) with (filter (keep L) (filter (fun h => negb (op_eqb HO h d)) Rc)); [exact IH|].
+      clear. induction Rc as [|h Rc IHR]; [reflexivity|]. cbn [filter memH].
+      destruct (op_eqb HO h d); cbn [negb orb filter]; [exact IHR|].
+      destruct (memH HO h L); cbn [negb]; rewrite IHR; reflexivity.
+  Qed.
+
+  (** [removeSingle] on the position of a node: all the leaves below the node are deleted *)
+  Theorem removeSingle_node s Rc Rn m L x z : Inv2 HO s Rc Rn m ->
+    In x (layout HO s) ->
+    (forall y, In y (layout HO s) -> nleaf y = true ->
+               (memH HO (nhash y) L = true <-> under (coord x) (coord y))) ->
+    (forall y, In y (layout HO s) -> nleaf y = true -> under (coord x) (coord y) -> ~ In (nhash y) Rc) ->
+    In z (layout HO s) -> nleaf z = true -> under (coord x) (coord z) -> In (nhash z) Rn ->
+    exists nd' ca',
+      removeSingle HO (ms_n m) (ms_total m) (ms_full m) (gp (ms_total m) (nrow x) (noff x))
+        (ms_nodes m, ms_cached m) = (nd', ca') /\
+      Inv2 HO (kill HO L s) Rc (filter (keep L) Rn) (mkM nd' ca' (ms_n m) (ms_total m) (ms_full m)).
+  Proof.
+    intros I Hx Hdel HLc Hz Lz Uz Rz. destruct (nroot x) eqn:Rx.
+    - exists (nodes_put (gp (ms_total m) (nrow x) (noff x)) (op_empty HO, ms_full m)
+                (forgetBelow (ms_total m) (gp (ms_total m) (nrow x) (noff x)) (ms_nodes m))),
+             (ms_cached m).
+      split; [|exact (sr_Inv H HO s Rc Rn m I L x Hx Rx Hdel HLc)].
+      unfold removeSingle. cbv zeta. cbn [fst snd].
+      pose proof (i_n I) as En. unfold num_leaves in En. rewrite En at 1.
+      rewrite (ng_isroot H HO s (ms_total m) (pi_n63 H HO s Rc Rn m I) (pi_Tlo H HO s Rc Rn m I) (i_T63 I) x Hx).
+      rewrite Rx. reflexivity.
+    - exact (removeSingle_inner H HO HOK s Rc Rn m L x z I Hx Rx Hdel HLc Hz Lz Uz Rz).
+  Qed.
+
+  Lemma sortN_single t : sortN [t] = [t].
+  Proof. reflexivity. Qed.
+
+  Lemma deTwin_single p fr : deTwin [p] fr = [p].
+  Proof. reflexivity. Qed.
+
+  (** the target of a node, as [remove] translates it *)
+  Lemma target_translate s Rc Rn m x : Inv2 HO s Rc Rn m -> In x (layout HO s) ->
+    (if ms_total m =? TreeRows (ms_n m) then [npos (rows_of (num_leaves s)) x]
+     else translatePositions [npos (rows_of (num_leaves s)) x] (TreeRows (ms_n m)) (ms_total m))
+    = [gp (ms_total m) (nrow x) (noff x)].
+  Proof.
+    intros I Hx. pose proof (i_n I) as En. unfold num_leaves in En.
+    pose proof (pi_n63 H HO s Rc Rn m I) as Hn63. pose proof (pi_Tlo H HO s Rc Rn m I) as HTlo.
+    destruct (ng_valid H HO s (ms_total m) Hn63 HTlo (i_T63 I) x Hx) as [A B].
+    destruct (ng_valid_min H HO s (ms_total m) Hn63 HTlo (i_T63 I) x Hx) as [C D].
+    assert (Et : npos (rows_of (num_leaves s)) x = gpos (TreeRows (ms_n m)) (N.of_nat (nrow x)) (noff x)).
+    { unfold npos. rewrite LayoutStruct.pos_gpos. unfold num_leaves. rewrite <- En.
+      rewrite (rows_of_TreeRows (ms_n m)). reflexivity. }
+    rewrite Et. rewrite En in *.
+    destruct (N.eqb_spec (ms_total m) (TreeRows (N.of_nat (length s)))) as [E|E].
+    - unfold gp. rewrite E. reflexivity.
+    - unfold translatePositions. cbn [map]. f_equal. unfold gp.
+      apply translatePos_gpos; try assumption; try exact (i_T63 I).
+      exact (TreeRows_le_63 _ Hn63).
+  Qed.
+
+  (** ** G1: one remembered leaf is deleted *)
+  Theorem mm_modify_delete1 s R m x proof : Inv HO s R m ->
+    In x (layout HO s) -> nleaf x = true -> In (nhash x) R ->
+    exists m', mm_modify HO m [] [nhash x] [npos (rows_of (num_leaves s)) x] proof = Some m' /\
+               Inv HO (kill HO [nhash x] s) (filter (keep [nhash x]) R) m'.
+  Proof.
+    intros I Hx Lx Hh. unfold Inv in *.
+    pose proof (target_translate s R R m x I Hx) as Etr.
+    destruct m as [nd ca n T full]. cbn [ms_n ms_total ms_nodes ms_cached ms_full] in *.
+    pose proof (pi_n63 H HO s R R _ I) as Hn63. pose proof (pi_Tlo H HO s R R _ I) as HTlo.
+    cbn [ms_total] in HTlo.
+    assert (Hhas : cached_has HO ca (nhash x) = true).
+    { unfold cached_has.
+      assert (E : cached_get HO ca (nhash x) = Some (gp T (nrow x) (noff x))).
+      { apply (i_cached I). split; [exact Hh|]. exists x. auto. }
+      cbn [ms_cached] in E. rewrite E. reflexivity. }
+    pose proof (uncache_Inv2 [nhash x] s R R nd ca n T full I) as I1. cbn [fold_left] in I1.
+    assert (Hdel : forall y, In y (layout HO s) -> nleaf y = true ->
+              (memH HO (nhash y) [nhash x] = true <-> under (coord x) (coord y))).
+    { intros y Hy Ly. rewrite (memH_In H HO HOK). cbn [In]. split.
+      - intros [E|[]]. rewrite (live_leaf_unique H HO s x y (i_live_nd I) Hx Hy Lx Ly E). apply under_refl.
+      - intros U. left. rewrite (ng_leaf_bottom H HO s T Hn63 HTlo (i_T63 I) x y Hx Hy Lx U). reflexivity. }
+    assert (HLc : forall y, In y (layout HO s) -> nleaf y = true -> under (coord x) (coord y) ->
+              ~ In (nhash y) (filter (keep [nhash x]) R)).
+    { intros y Hy Ly U Hin. apply filter_In in Hin as [_ Hm].
+      apply (Hdel y Hy Ly) in U. rewrite U in Hm. discriminate. }
+    destruct (removeSingle_node s _ R _ [nhash x] x x I1 Hx Hdel HLc Hx Lx (under_refl _) Hh)
+      as (nd' & ca' & Eq & I2).
+    cbn [ms_n ms_total ms_nodes ms_cached ms_full] in Eq, I2.
+    exists (mkM nd' ca' n T full). split; [|exact I2].
+    unfold mm_modify, MapMut.remove. cbn [ms_n ms_total ms_nodes ms_cached ms_full forallb].
+    rewrite Hhas. cbn [andb negb fold_left]. rewrite sortN_single, Etr, deTwin_single.
+    cbn [fold_left].
+    match goal with |- context [add_all _ _ _ _ _ ?st] =>
+      replace st with (nd', ca') by (symmetry; exact Eq) end.
+    reflexivity.
+  Qed.
+End RemoveNode.
+(** * 16. Several subtrees are deleted one after the other *)
+Lemma under_nested a b c : under a c -> under b c -> (fst a <= fst b)%nat -> under b a.
+Proof.
+  intros [Ha Ea] [Hb Eb] Hle. split; [exact Hle|].
+  rewrite <- Ea, <- Eb. rewrite N.div_div by (try (pose proof (p2_pos (fst a - fst c))); try (pose proof (p2_pos (fst b - fst a))); lia).
+  rewrite <- p2_add. f_equal. f_equal. lia.
+Qed.
+
+Lemma under_P_split rd od c : under (S rd, od / 2) c -> c <> (S rd, od / 2) ->
+  under (rd, od) c \/ under (rd, N.lxor od 1) c.
+Proof.
+  intros U Hne. destruct c as [rc oc].
+  assert (Hle : (rc <= rd)%nat).
+  { destruct U as [Hr E]. cbn [fst snd] in *. destruct (Nat.eq_dec rc (S rd)) as [->|]; [|lia].
+    exfalso. apply Hne. rewrite Nat.sub_diag, p2_0, N.div_1_r in E. congruence. }
+  destruct (under_split rd (od / 2) (rc, oc) U Hle) as [U'|U'];
+    destruct (pps_bit0 od) as (k & [(E1 & E2 & _ & E4)|(E1 & E2 & _ & E4)]); rewrite E4 in U'.
+  - left. rewrite E1. exact U'.
+  - right. rewrite E2. exact U'.
+  - right. rewrite E2. exact U'.
+  - left. rewrite E1. exact U'.
+Qed.
+
+(** [y] is not touched by the deletion of the subtree below [x] *)
+Definition indep {H} (x y : node H) : Prop :=
+  ~ under (coord x) (coord y) /\ ~ under (coord y) (coord x) /\
+  coord y <> (nrow x, N.lxor (noff x) 1) /\ (nrow x <= nrow y)%nat.
+
+Lemma indep_other {H} (x y : node H) : indep x y ->
+  ~ under (S (nrow x), noff x / 2) (coord y) /\ ~ under (coord y) (S (nrow x), noff x / 2).
+Proof.
+  intros (N1 & N2 & N3 & Hr). split.
+  - intros U. destruct (Nat.eq_dec (nrow y) (S (nrow x))) as [E|E].
+    + apply N2. destruct U as [_ Eo]. unfold coord in *. cbn [fst snd] in *.
+      rewrite E, Nat.sub_diag, p2_0, N.div_1_r in Eo.
+      destruct (under_sib_par (nrow x) (noff x)) as [_ Ux]. rewrite E, Eo. exact Ux.
+    + assert (Hne : coord y <> (S (nrow x), noff x / 2)) by (intros C; apply E; exact (f_equal fst C)).
+      destruct (under_P_split _ _ _ U Hne) as [Ux|Us]; [exact (N1 Ux)|].
+      apply N3. destruct Us as [Hle Eo]. unfold coord in *. cbn [fst snd] in *.
+      assert (Er : nrow y = nrow x) by lia. rewrite Er, Nat.sub_diag, p2_0, N.div_1_r in Eo. congruence.
+  - intros U. apply N2. exact (under_trans _ _ _ U (proj2 (under_sib_par (nrow x) (noff x)))).
+Qed.
+
+(** whatever lies below a node that is not touched is not touched *)
+Lemma other_below c y w : ~ under c y -> ~ under y c -> under y w -> ~ under c w /\ ~ under w c.
+Proof.
+  intros N1 N2 U. split.
+  - intros Uc. destruct (le_ge_dec (fst c) (fst y)) as [Hle|Hge].
+    + apply N2. exact (under_nested _ _ _ Uc U Hle).
+    + apply N1. exact (under_nested _ _ _ U Uc Hge).
+  - intros Uw. apply N2. exact (under_trans _ _ _ U Uw).
+Qed.
+
+Section KillLeaves.
+  Variable H : Type.
+  Variable HO : ops H.
+  Hypothesis HOK : ops_ok HO.
+  Variable s : slots H.
+  Variable L : list H.
+  Variable x : node H.
+  Hypothesis Hnd : NoDup (live s).
+  Hypothesis Hx : In x (layout HO s).
+  Hypothesis Hdel : forall y, In y (layout HO s) -> nleaf y = true ->
+    (memH HO (nhash y) L = true <-> under (coord x) (coord y)).
+  Notation lay := (layout HO s).
+  Notation lay' := (layout HO (kill HO L s)).
+
+  (** a node that is not touched, and everything below it, stays where it is *)
+  Lemma kl_keep y : In y lay -> indep x y -> forall w, In w lay -> under (coord y) (coord w) -> In w lay'.
+  Proof.
+    intros Hy Hi w Hw U. destruct (nroot x) eqn:Rx.
+    - apply (proj2 (kill_root H HO s L x Hx Hdel Rx) w Hw).
+      destruct Hi as (N1 & N2 & _). exact (proj1 (other_below _ _ _ N1 N2 U)).
+    - destruct (indep_other x y Hi) as [N1 N2]. destruct (other_below _ _ _ N1 N2 U) as [M1 M2].
+      exact (proj1 (kill_inner H HO s L x Hx Hdel Rx w Hw) M1 M2).
+  Qed.
+
+  (** the leaves after the deletion, below a node that is not touched *)
+  Lemma kl_leaf_below y w' : In y lay -> indep x y -> In w' lay' -> nleaf w' = true ->
+    under (coord y) (coord w') -> In w' lay /\ memH HO (nhash w') L = false.
+  Proof.
+    intros Hy Hi Hw' Lw' U.
+    pose proof (layout_leaf_live H HO _ w' Hw' Lw') as Hl. apply kill_live in Hl as [Hl Hm].
+    destruct (live_leaf_in_layout H HO s _ Hl) as (w & Hw & Lw & Ew). rewrite <- Ew in Hm.
+    assert (Hnx : ~ under (coord x) (coord w)).
+    { intros Ux. apply (Hdel w Hw Lw) in Ux. congruence. }
+    pose proof (kill_nodup H HO L s Hnd) as Hnd'.
+    destruct (nroot x) eqn:Rx.
+    - pose proof (proj2 (kill_root H HO s L x Hx Hdel Rx) w Hw Hnx) as Hwl.
+      rewrite (live_leaf_unique H HO _ w' w Hnd' Hw' Hwl Lw' Lw ltac:(congruence)). split; assumption.
+    - destruct (indep_other x y Hi) as [N1 N2].
+      destruct (kill_inner H HO s L x Hx Hdel Rx w Hw) as (K1 & K2 & _).
+      destruct (under_dec (S (nrow x), noff x / 2) (coord w)) as [UP|NP].
+      + (* w lies below the sibling: its image lies below the parent, not below y *)
+        exfalso.
+        assert (Hne : coord w <> (S (nrow x), noff x / 2)).
+        { intros C. destruct (ng_family H HO s x Hx Rx) as (p & _ & Hp & _ & _ & Hpl & _ & Ep & _).
+          rewrite <- Ep in C. rewrite (ng_coord_eq H HO s w p Hw Hp C) in Lw. congruence. }
+        destruct (under_P_split _ _ _ UP Hne) as [Ux|Us]; [exact (Hnx Ux)|].
+        pose proof (K2 Us) as Hup.
+        assert (Ew' : w' = upn H (nrow x) (S (nrow x) =? ntree x)%nat w).
+        { apply (live_leaf_unique H HO _ _ _ Hnd' Hw' Hup Lw' Lw). cbn [upn nhash]. congruence. }
+        (* the image lies below the parent *)
+        assert (UPi : under (S (nrow x), noff x / 2) (coord w')).
+        { rewrite Ew'. destruct Us as [Hr Eo]. unfold coord in *. cbn [fst snd] in *.
+          unfold upn. cbn [nrow noff]. 
+          destruct (under_decomp (nrow x, N.lxor (noff x) 1) (nrow w, noff w) (conj Hr Eo)) as [Ed Hb].
+          cbn [fst snd] in Ed, Hb.
+          apply (under_compose (S (nrow x), noff x / 2) (S (nrow w), _) (noff w mod 2 ^ N.of_nat (nrow x - nrow w)));
+            cbn [fst snd]; [lia| |].
+          - rewrite Ed at 1. rewrite rmbit_block by exact Hb.
+            replace (S (nrow x) - S (nrow w))%nat with (nrow x - nrow w)%nat by lia.
+            f_equal. f_equal. rewrite lxor_1. destruct (pps_bit0 (noff x)) as (k & [(E1 & E2 & _ & E4)|(E1 & E2 & _ & E4)]).
+            + rewrite <- lxor_1, E2, E4. apply pps_div2_double1.
+            + rewrite <- lxor_1, E2, E4. apply pps_div2_double.
+          - replace (S (nrow x) - S (nrow w))%nat with (nrow x - nrow w)%nat by lia. exact Hb. }
+        destruct (le_ge_dec (S (nrow x)) (nrow y)) as [Hle|Hge].
+        * apply N2. exact (under_nested _ _ _ UPi U Hle).
+        * apply N1. exact (under_nested _ _ _ U UPi Hge).
+      + assert (NP2 : ~ under (coord w) (S (nrow x), noff x / 2)).
+        { intros Uw. destruct (ng_family H HO s x Hx Rx) as (p & _ & Hp & _ & _ & Hpl & _ & Ep & _).
+          rewrite <- Ep in Uw.
+          assert (Hn63 : True) by exact I.
+          (* a node below a leaf is the leaf *)
+          destruct (under_range H w p Uw) as (A & B & _).
+          destruct (layout_entry H HO s w Hw) as (k & lo & t & He & Hwe).
+          destruct (layout_entry H HO s p Hp) as (k2 & lo2 & t2 & He2 & Hpe).
+          destruct (layout_same_entry H HO s _ _ _ _ _ _ w p He He2 Hwe Hpe A B) as (<- & <- & <-).
+          destruct Uw as [Hr E]. unfold coord in Hr, E. cbn [fst snd] in Hr, E.
+          destruct (Nat.eq_dec (nrow p) (nrow w)) as [Er|Hne].
+          - rewrite Er, Nat.sub_diag, p2_0, N.div_1_r in E.
+            assert (Ec : coord p = coord w) by (unfold coord; congruence).
+            rewrite (ng_coord_eq H HO s p w Hp Hw Ec) in Hpl. congruence.
+          - cbn [place_entry] in Hwe, Hpe. destruct t as [c|].
+            + apply (place_tree_leaf_bottom H c _ _ _ _ w p Hwe Hpe Lw); [lia|exact A|exact B].
+            + destruct Hwe as [<-|[]]. discriminate Lw. }
+        pose proof (K1 NP NP2) as Hwl.
+        rewrite (live_leaf_unique H HO _ w' w Hnd' Hw' Hwl Lw' Lw ltac:(congruence)). split; assumption.
+  Qed.
+End KillLeaves.
+
+Section RemoveFold.
+  Variable H : Type.
+  Variable HO : ops H.
+  Hypothesis HOK : ops_ok HO.
+  Notation keep L := (fun h => negb (memH HO h L)).
+
+  Definition underb (c d : nat * N) : bool := if under_dec c d then true else false.
+  Definition leaves_under (s : slots H) (y : node H) : list H :=
+    map (@nhash H) (filter (fun w => nleaf w && underb (coord y) (coord w)) (layout HO s)).
+
+  Lemma leaves_under_spec s y w : NoDup (live s) -> In w (layout HO s) -> nleaf w = true ->
+    (memH HO (nhash w) (leaves_under s y) = true <-> under (coord y) (coord w)).
+  Proof.
+    intros Hnd Hw Lw. rewrite (memH_In H HO HOK). unfold leaves_under. rewrite in_map_iff. split.
+    - intros (w' & Eh & Hin). apply filter_In in Hin as [Hw' Hb]. apply andb_true_iff in Hb as [Lw' Hu].
+      rewrite <- (live_leaf_unique H HO s w' w Hnd Hw' Hw Lw' Lw Eh).
+      unfold underb in Hu. destruct (under_dec (coord y) (coord w')); [assumption|discriminate].
+    - intros U. exists w. split; [reflexivity|]. apply filter_In. split; [exact Hw|].
+      rewrite Lw. unfold underb. destruct (under_dec (coord y) (coord w)); [reflexivity|contradiction].
+  Qed.
+
+  Lemma kill_nil (s : slots H) : kill HO [] s = s.
+  Proof. induction s as [|[h|] s IH]; cbn [kill map memH] in *; [reflexivity| |]; f_equal; exact IH. Qed.
+
+  Lemma filter_keep_nil (R : list H) : filter (keep []) R = R.
+  Proof. induction R as [|h R IH]; [reflexivity|]. cbn [filter memH negb]. f_equal. exact IH. Qed.
+
+  Lemma filter_keep_app A B (R : list H) : filter (keep (A ++ B)) R = filter (keep B) (filter (keep A) R).
+  Proof.
+    induction R as [|h R IH]; [reflexivity|]. cbn [filter]. rewrite (memH_app H HO).
+    destruct (memH HO h A); cbn [negb orb filter]; [exact IH|].
+    destruct (memH HO h B); cbn [negb]; rewrite IH; reflexivity.
+  Qed.
+
+  (** a list of nodes whose subtrees can be deleted one after the other *)
+  Definition okseq (s : slots H) (Rc Rn : list H) (ys : list (node H)) : Prop :=
+    (forall y, In y ys ->
+       In y (layout HO s) /\
+       (exists z, In z (layout HO s) /\ nleaf z = true /\ under (coord y) (coord z) /\ In (nhash z) Rn) /\
+       (forall w, In w (layout HO s) -> nleaf w = true -> under (coord y) (coord w) -> ~ In (nhash w) Rc)) /\
+    ForallOrdPairs indep ys.
+
+  Lemma remove_fold Rc : forall ys s Rn nd ca n T full,
+    Inv2 HO s Rc Rn (mkM nd ca n T full) -> okseq s Rc Rn ys ->
+    exists Lt nd' ca',
+      fold_left (fun st d => removeSingle HO n T full d st)
+                (map (fun y : node H => gp T (nrow y) (noff y)) ys) (nd, ca) = (nd', ca') /\
+      (forall w, In w (layout HO s) -> nleaf w = true ->
+         (memH HO (nhash w) Lt = true <-> exists y, In y ys /\ under (coord y) (coord w))) /\
+      Inv2 HO (kill HO Lt s) Rc (filter (keep Lt) Rn) (mkM nd' ca' n T full).
+  Proof.
+    induction ys as [|y1 rest IH]; intros s Rn nd ca n T full I [Hok Hfop].
+    - exists [], nd, ca. split; [reflexivity|]. split.
+      + intros w _ _. cbn [memH]. split; [discriminate|]. intros (y & [] & _).
+      + rewrite kill_nil, filter_keep_nil. exact I.
+    - pose proof (i_live_nd I) as Hnd.
+      destruct (Hok y1 (or_introl eq_refl)) as (Hy1 & (z & Hz & Lz & Uz & Rz) & Hc1).
+      set (L1 := leaves_under s y1).
+      assert (Hdel1 : forall w, In w (layout HO s) -> nleaf w = true ->
+                (memH HO (nhash w) L1 = true <-> under (coord y1) (coord w))).
+      { intros w Hw Lw. apply leaves_under_spec; assumption. }
+      destruct (removeSingle_node H HO HOK s Rc Rn _ L1 y1 z I Hy1 Hdel1 Hc1 Hz Lz Uz Rz)
+        as (nd1 & ca1 & Eq & I1).
+      cbn [ms_n ms_total ms_nodes ms_cached ms_full] in Eq, I1.
+      inversion Hfop as [|a l Hhead Htail]; subst a l.
+      rewrite Forall_forall in Hhead.
+      assert (Hok1 : okseq (kill HO L1 s) Rc (filter (keep L1) Rn) rest).
+      { split; [|exact Htail]. intros y Hy.
+        destruct (Hok y (or_intror Hy)) as (Hyl & (zy & Hzy & Lzy & Uzy & Rzy) & Hcy).
+        pose proof (Hhead y Hy) as Hi. split; [|split].
+        - exact (kl_keep H HO s L1 y1 Hy1 Hdel1 y Hyl Hi y Hyl (under_refl _)).
+        - exists zy. split; [exact (kl_keep H HO s L1 y1 Hy1 Hdel1 y Hyl Hi zy Hzy Uzy)|].
+          split; [exact Lzy|]. split; [exact Uzy|]. apply filter_In. split; [exact Rzy|].
+          destruct (memH HO (nhash zy) L1) eqn:Em; [exfalso|reflexivity].
+          apply (Hdel1 zy Hzy Lzy) in Em. destruct Hi as (N1 & N2 & _ & Hr).
+          apply N2. exact (under_nested _ _ _ Em Uzy Hr).
+        - intros w' Hw' Lw' Uw'.
+          destruct (kl_leaf_below H HO s L1 y1 Hnd Hy1 Hdel1 y w' Hyl Hi Hw' Lw' Uw') as [Hwl _].
+          exact (Hcy w' Hwl Lw' Uw'). }
+      destruct (IH _ _ nd1 ca1 n T full I1 Hok1) as (Ltr & nd' & ca' & Ef & Hspec & Ir).
+      exists (L1 ++ Ltr), nd', ca'. split; [|split].
+      + cbn [map fold_left].
+        match goal with |- fold_left ?f ?l ?st = _ => replace st with (nd1, ca1) by (symmetry; exact Eq) end.
+        exact Ef.
+      + intros w Hw Lw. rewrite (memH_app H HO), orb_true_iff. split.
+        * intros [E1|Er].
+          -- exists y1. split; [left; reflexivity|]. apply (Hdel1 w Hw Lw), E1.
+          -- destruct (memH HO (nhash w) L1) eqn:E1.
+             { exists y1. split; [left; reflexivity|]. apply (Hdel1 w Hw Lw), E1. }
+             assert (Hl1 : In (Some (nhash w)) (kill HO L1 s)).
+             { apply kill_live. split; [exact (layout_leaf_live H HO s w Hw Lw)|exact E1]. }
+             destruct (live_leaf_in_layout H HO _ _ Hl1) as (w1 & Hw1 & Lw1 & Ew1).
+             rewrite <- Ew1 in Er. apply (Hspec w1 Hw1 Lw1) in Er as (y & Hy & Uy).
+             destruct (Hok y (or_intror Hy)) as (Hyl & _).
+             destruct (kl_leaf_below H HO s L1 y1 Hnd Hy1 Hdel1 y w1 Hyl (Hhead y Hy) Hw1 Lw1 Uy) as [Hw1l _].
+             rewrite (live_leaf_unique H HO s w1 w Hnd Hw1l Hw Lw1 Lw Ew1) in Uy.
+             exists y. split; [right; exact Hy|exact Uy].
+        * intros (y & [<-|Hy] & Uy).
+          -- left. apply (Hdel1 w Hw Lw), Uy.
+          -- right. destruct (Hok y (or_intror Hy)) as (Hyl & _).
+             pose proof (kl_keep H HO s L1 y1 Hy1 Hdel1 y Hyl (Hhead y Hy) w Hw Uy) as Hw1.
+             apply (Hspec w Hw1 Lw). exists y. auto.
+      + rewrite <- (kill_kill H HO), filter_keep_app. exact Ir.
+  Qed.
+End RemoveFold.
